@@ -18,6 +18,15 @@ def os_inventory(prog, units_prefix="src/"):
     return inv
 
 
+_SK = {}
+
+
+def _status_kinds(prog):
+    if id(prog) not in _SK:
+        _SK[id(prog)] = ERR.internal_status_kinds(prog)
+    return _SK[id(prog)]
+
+
 def check_functions(chk, prog, fnames, kinds, rule_prefix=""):
     """run the ERR domain over the functions; returns {fname: domain}"""
     doms = {}
@@ -44,8 +53,21 @@ def check_functions(chk, prog, fnames, kinds, rule_prefix=""):
                    "result of %s() is checked before use" % cn) if not any(
                        (k == "CHK" and cn in t) for k, _, t in reports) else None
         # RET: failure paths return failure; nothing unchecked reaches a successful return
+        conv = _status_kinds(prog).get(fname)
         for n, s in dom.rets:
             failed = s.get("__failed")
+            if conv == "status" and n.get("kind") == "ReturnStmt" and kids(n):
+                # the documented failure value is EXIT_FAILURE: the raw result of an OS call (-1 / EOF on failure) is not a status
+                ck = dom._call_kind(kids(n)[0])
+                raw = ck[0] if ck else None
+                rk0 = dom.key_of(kids(n)[0])
+                if raw is None and rk0 and isinstance(s.get(rk0), ERR.U) and not s[rk0].kind.startswith("flag"):
+                    raw = s[rk0].callee
+                if raw is not None and raw.split("|")[0] in ERR.OS_FAIL:
+                    chk.bad(rule_prefix + "RET", "%sRET/value/%s/%s" % (rule_prefix, fname, raw), loc_str(n),
+                            "%s reports failure through EXIT_FAILURE, the value its callers compare with" % fname,
+                            "returns the raw result of %s(), whose failure value is not EXIT_FAILURE" % raw)
+                    continue
             isf = ERR.return_is_failure(prog, dom, n) if n.get("kind") == "ReturnStmt" else None
             retkey = None
             if n.get("kind") == "ReturnStmt" and kids(n):
@@ -116,12 +138,16 @@ def run(chk, prog, tier):
     growers = sorted(fn for fn, cn, _ in inv if cn == "mremap")
     chk.floor("growth routines", len(set(growers)), 1)
     atomic_rule(chk, prog, sorted(set(growers)), doms)
+    # the failure of an OS call inside an internal routine travels to the public entry through internal statuses
+    ERR.prop_rules(chk, prog)
     chk.trusted_base = ["clang 14 front end", "the checker (valib/flow.py, valib/err.py)",
                         "failure conventions of the libc calls as listed in valib/err.py:OS_FAIL (POSIX)"]
     chk.explanation = ("Every call site of an OS/libc resource function in the library is enumerated from resolved callees; "
                        "a typestate analysis on the structured control flow shows that its result is compared with the call's "
                        "failure value before any use, that instance fields are written only after the check, that every path "
-                       "on which the call failed returns the documented failure value, and that a failing growth leaves the "
-                       "buffer fields untouched.")
+                       "on which the call failed returns the documented failure value (EXIT_FAILURE or NULL, never a raw OS result), that a "
+                       "failing growth leaves the buffer fields untouched, and (PROP) that every internal status on the way to the "
+                       "public entry is tested and passed on.  A result of read()/write() held in an unsigned variable is not "
+                       "accepted as tested by an ordering comparison.")
     chk.assumptions += ["close() on a read-only descriptor and munmap()/free() results may be ignored (listed in the evidence)",
                         "glibc reports failure as POSIX documents"]
